@@ -285,7 +285,25 @@ func (r *Result) Finish(path string) error {
 	})
 	b, err := json.MarshalIndent(r, "", " ")
 	if err != nil {
-		return err
+		// some engine put an unprintable value into a disagreement (e.g. an empty
+		// json.RawMessage): never lose the whole result over that - render the offending
+		// parts as text and try again
+		for i := range r.Disagreements {
+			d := &r.Disagreements[i]
+			if _, e := json.Marshal(d.Case); e != nil {
+				d.Case = fmt.Sprint(d.Case)
+			}
+			if _, e := json.Marshal(d.Impl); e != nil {
+				d.Impl = fmt.Sprint(d.Impl)
+			}
+			if _, e := json.Marshal(d.Model); e != nil {
+				d.Model = fmt.Sprint(d.Model)
+			}
+		}
+		b, err = json.MarshalIndent(r, "", " ")
+		if err != nil {
+			return err
+		}
 	}
 	if path == "" || path == "-" {
 		_, err = os.Stdout.Write(append(b, '\n'))
